@@ -140,6 +140,7 @@ def gen_case(seed, tier):
     # an active edge in one instant and both ports write one row, the row ends up with one of the two values - the same one
     # under every process order
     config["mem_cross"] = bool(two and fl.random() < 0.35)
+    config["rowproc"] = fl.random() < 0.3
     doms = ["d1", "d2"] if two else ["d1"]
     ntb = cfg.randint(1, 4)
     twins = ntb >= 2 and cfg.random() < 0.4
@@ -422,6 +423,17 @@ class Reference:
                     self.stats["cross_domain_write_collision"] = self.stats.get("cross_domain_write_collision", 0) + 1
                 else:
                     rows_new[row] = pre[2][0]
+            if self.c.get("rowproc") and "d1" in edges_now and (self.x >> 1) & 1:
+                # the process's store and a port's write to one row at one edge: one of the two values - the same under every
+                # process order (elsewhere the store simply takes effect)
+                row = pre[0] & 1
+                val = (self.x + 1) & self.mask
+                if rows_new[row] != self.rows[row] or (pre[3]) or (self.c.get("mem_cross") and "d2" in edges_now and self.wen2
+                                                                 and (pre[1] & 1) == row):
+                    rows_new[row] = val if rows_new[row] == val else "*"
+                    self.stats["process_and_port_write_one_row"] = self.stats.get("process_and_port_write_one_row", 0) + 1
+                else:
+                    rows_new[row] = val
             if dom_of["r2"] in edges_now:
                 r3_new = (r3_new & 1) | (((self.r3 >> 1) ^ pre[3]) & 1) << 1
             self.r3 = r3_new
@@ -605,6 +617,13 @@ def build(config):
                 elif clk_edge:
                     ctx.set(s.r2, a + b)
         procs.append(p_r2)
+    if config.get("rowproc"):
+        # a process that stores to a memory row itself, at the edge at which the memory's own write port may write the same row
+        async def p_row(ctx):
+            async for clk_edge, rst_value, r1v, xv in ctx.tick("d1").sample(s.r1, s.x):
+                if clk_edge and (xv >> 1) & 1:
+                    ctx.set(s.mem.data[r1v & 1], (xv + 1) & ((1 << config["w"]) - 1))
+        procs.append(p_row)
     return Top(), s, procs
 
 
@@ -971,6 +990,7 @@ def run_case(case):
             P[k] = P.get(k, 0) + rs.get(k, 0)
         P["woken_by_testbench"] = P.get("woken_by_testbench", 0) + rs.get("woken_by_testbench", 0)
         P["cross_domain_write_collision"] = P.get("cross_domain_write_collision", 0) + rs.get("cross_domain_write_collision", 0)
+        P["process_and_port_write_one_row"] = P.get("process_and_port_write_one_row", 0) + rs.get("process_and_port_write_one_row", 0)
         P["replaced_comb"] += sum(1 for p in config["replace"] if p in ("s1", "s2", "s3", "out"))
         P["replaced_sync"] += sum(1 for p in config["replace"] if p in ("r1", "r2"))
         stats["steps"] += len(expected)
